@@ -335,7 +335,7 @@ CHECK = {
     "property": "C18",
     "props": "Props/C18.v",
     "theorems": ["c18_validate_iff", "c18_validate_total", "c18_validate_err", "c18_validate_opaque",
-                 "c18_read_total", "c18_read_iff", "c18_read_err", "c18_read_valid",
+                 "c18_read_total", "c18_read_iff", "c18_read_err", "c18_read_valid", "c18_read_uncompressed_partial",
                  "c18_oracle_valid_is_spec", "c18_oracle_read_is_spec",
                  "c18_dispatch_validate", "c18_dispatch_read"],
     "allowed_axioms": [],
